@@ -123,6 +123,11 @@ pub mod sim {
         pub PANICKING: bool,
         /// scratch cells for harnesses (symbolic budgets, effect values, ...)
         pub CELL: [u64; 8],
+        /// backing store for symbolic `&'static str` signatures
+        pub SIGBUF: [[u8; 24]; 2],
+        /// the harness expects the next installation to be REFUSED: any mmap / mprotect / write of
+        /// code memory while this is set is a violation ("refused target untouched")
+        pub NO_TOUCH: bool,
     }
     /// The two region tables are separate statics (one big struct made every byte access a
     /// whole-struct update: 2.7x more clauses); `Region::magic` keeps their initial bytes unlike
@@ -158,6 +163,8 @@ pub mod sim {
         REQUIRE_LOCK: false,
         PANICKING: false,
         CELL: [0; 8],
+        SIGBUF: [[0x20; 24]; 2],
+        NO_TOUCH: false,
     };
 
     pub unsafe fn reset() {
@@ -178,6 +185,7 @@ pub mod sim {
         S.MPROTECT_MAY_FAIL = false;
         S.ANY_FORCE_AT = 0;
         S.ALLOC_STRICT = false;
+        S.NO_TOUCH = false;
     }
 
     /// simulated addresses are plain integers below 2^47; anything else is a real
@@ -280,6 +288,10 @@ pub mod sim {
             return;
         }
         S.N_WRITE += 1;
+        assert!(
+            !S.NO_TOUCH,
+            "VERIF[C09,C05,C10]: code memory was written by an installation that has to be refused"
+        );
         if !lock_held {
             S.UNLOCKED_WRITE = true;
         }
@@ -478,6 +490,10 @@ pub unsafe fn mmap(
     _off: off_t,
 ) -> *mut c_void {
     sim::S.N_MMAP += 1;
+    assert!(
+        !sim::S.NO_TOUCH,
+        "VERIF[C09,C05,C10]: a trampoline was mapped by an installation that has to be refused"
+    );
     assert!(len > 0 && len <= sim::RLEN, "MODEL: trampoline length outside the modelled block");
     assert!(
         prot & PROT_WRITE != 0 && prot & PROT_EXEC != 0,
@@ -565,6 +581,10 @@ pub unsafe fn munmap(addr: *mut c_void, len: size_t) -> c_int {
 
 pub unsafe fn mprotect(addr: *mut c_void, len: size_t, prot: c_int) -> c_int {
     sim::S.N_MPROTECT += 1;
+    assert!(
+        !sim::S.NO_TOUCH,
+        "VERIF[C09,C05,C10]: page protection was changed by an installation that has to be refused"
+    );
     let a = addr as u64;
     if a & (sim::S.PAGE - 1) != 0 {
         return -1; // EINVAL
